@@ -3,7 +3,8 @@
 //!
 //! Element codes: ty 0 u8 / 1 i32: the value; ty 2 f64: 1000 NaN, 1001 -0.0, else c/2;
 //! ty 3 String: bytes as base-256 digits after a leading 1; ty 4 GenericArray<u8,U2>: 256x+y;
-//! ty 5 Kv {k, v}: 256k+v -- == compares both fields, the ordering only the key.
+//! ty 5 Kv {k, v}: 256k+v -- == compares both fields, the ordering only the key;
+//! ty 6 i8: the value (a ONE-BYTE type whose order is not the order of its bytes).
 //!
 //! pair case    0 ty n a.. b..
 //!   OBS eq ne pcmp lt le gt ge F1  cmp hmA hmB hmShort hmLong btA btB btShort btLong F2
@@ -116,6 +117,14 @@ impl Elem for u8 {
 impl Elem for i32 {
     fn dec(c: i128) -> Self {
         c as i32
+    }
+    fn same(&self, o: &Self) -> bool {
+        self == o
+    }
+}
+impl Elem for i8 {
+    fn dec(c: i128) -> Self {
+        c as i8
     }
     fn same(&self, o: &Self) -> bool {
         self == o
@@ -450,6 +459,7 @@ fn run_case(case: &[i128]) -> (Vec<i128>, Vec<String>) {
             3 => pair_all::<String>(a, b, &mut out, &mut orc),
             4 => pair_all::<Nest>(a, b, &mut out, &mut orc),
             5 => pair_all::<Kv>(a, b, &mut out, &mut orc),
+            6 => pair_all::<i8>(a, b, &mut out, &mut orc),
             _ => panic!("bad type {}", ty),
         }
     } else {
@@ -470,6 +480,7 @@ fn run_case(case: &[i128]) -> (Vec<i128>, Vec<String>) {
             3 => single_all::<String>(a, &mut out, &mut orc),
             4 => single_all::<Nest>(a, &mut out, &mut orc),
             5 => single_all::<Kv>(a, &mut out, &mut orc),
+            6 => single_all::<i8>(a, &mut out, &mut orc),
             _ => panic!("bad type {}", ty),
         }
     }
@@ -500,6 +511,7 @@ fn leaves_of(ty: i128, code: i128) -> Vec<(i128, [String; NF])> {
         2 => <f64 as Elem>::leaves(code),
         3 => <String as Elem>::leaves(code),
         4 => <Nest as Elem>::leaves(code),
+        6 => <i8 as Elem>::leaves(code),
         _ => <Kv as Elem>::leaves(code),
     }
 }
@@ -541,6 +553,8 @@ fn alphabet(ty: i128) -> Vec<i128> {
         3 => vec![1, 256 + 97, (256 + 97) * 256 + 98, 256 + 98, (256 + 97) * 256 + 34],
         // [0,0] [0,1] [1,0] [255,255] [7,0]
         4 => vec![0, 1, 256, 255 * 256 + 255, 7 * 256],
+        // i8: mixed signs (as bytes: 0xFF 0x00 0x01 0x80 0x7F)
+        6 => vec![-1, 0, 1, -128, 127],
         // Kv: {0,0} {0,1} {1,0} {1,5} {7,0}: same key with different values, different keys
         _ => vec![0, 1, 256, 256 + 5, 7 * 256],
     }
@@ -571,7 +585,7 @@ fn main() {
         return;
     }
     let thorough = a.tier == "thorough";
-    for ty in 0..6i128 {
+    for ty in 0..7i128 {
         let alpha = alphabet(ty);
         // exhaustive pairs: (length, letters)
         let mut scopes: Vec<(usize, usize)> = vec![];
@@ -609,7 +623,7 @@ fn main() {
     // seeded larger lengths
     let mut rng = Rng::new(a.seed);
     let (npairs, nsingles) = if thorough { (2000, 200) } else { (60, 16) };
-    for ty in 0..6i128 {
+    for ty in 0..7i128 {
         let alpha = alphabet(ty);
         for n in [5usize, 8, 15, 16, 17, 31, 32, 33, 64, 65] {
             for _ in 0..npairs {
@@ -638,10 +652,14 @@ fn main() {
                 do_case(pair_case(ty, &x, &y));
             }
             for _ in 0..nsingles {
-                let x: Vec<i128> = if ty <= 1 && rng.chance(1, 2) {
+                let x: Vec<i128> = if (ty <= 1 || ty == 6) && rng.chance(1, 2) {
                     // integers: any value of the type
                     (0..n)
-                        .map(|_| if ty == 0 { rng.below(256) as i128 } else { (rng.next() as u32 as i32) as i128 })
+                        .map(|_| match ty {
+                            0 => rng.below(256) as i128,
+                            6 => rng.below(256) as i128 - 128,
+                            _ => (rng.next() as u32 as i32) as i128,
+                        })
                         .collect()
                 } else {
                     (0..n).map(|_| alpha[rng.below(alpha.len() as u64) as usize]).collect()
